@@ -358,13 +358,17 @@ impl Parser {
             });
         }
 
-        let maybe_value = if !self.match_token(&SoftSemi) {
+        // like an expression statement, RETURN may be directly followed by
+        // the closing brace of its block or by the end of the input
+        let maybe_value = if self.is_at_end() || self.check(&RightBrace) {
+            None
+        } else if !self.match_token(&SoftSemi) {
             Some(self.expression()?)
         } else {
             None
         };
 
-        if maybe_value.is_some() {
+        if maybe_value.is_some() && !self.is_at_end() && !self.check(&RightBrace) {
             self.consume(&SoftSemi, |_token| {
                 miette! {
                     "todo: expected semicolon after return statement"
